@@ -55,7 +55,8 @@ def _tasks(n):
                 chm_u == T.tr_choices(sim_j.t),                               # the branch whose choices are visible
                 E.eq(E.method(tr, "get_args"), args))
             E.prove(f"C13.Switch.simulate.in_range.behaves_as_branch[{j}of{n}]", E.Implies(z3.And(inr, idx.t == j), body))
-            E.prove(f"C13.Switch.simulate.out_of_range.clamped[{j}of{n}]", E.Implies(z3.And(z3.Not(inr), clamp == j), body))
+            E.prove(f"C13.Switch.simulate.out_of_range.clamped[{j}of{n}]", E.Implies(z3.And(z3.Not(inr), clamp == j), body),
+                    also=["C01"])
         E.prove(f"C01.Switch.simulate.in_range.wf[n{n}]", E.Implies(inr, wf(E, sw, tr)))
         E.prove(f"C01.Switch.simulate.out_of_range.wf[n{n}]", E.Implies(z3.Not(inr), wf(E, sw, tr)))
         E.refutable(f"switch.simulate.n{n}", E.eq(E.method(tr, "get_score"), SReal(T.tr_score(T.sim(gs[0].t, k.t, bargs[0].t)))))
@@ -85,7 +86,8 @@ def _tasks(n):
                 pid = {"assess": "C02", "generate": "C03", "project": "C10"}[nm]
                 E.prove(f"{pid}.Switch.{nm}.in_range.behaves_as_branch[{j}of{n}]", E.Implies(z3.And(inr, idx.t == j), body))
                 E.prove(f"C13.Switch.{nm}.in_range.behaves_as_branch[{j}of{n}]", E.Implies(z3.And(inr, idx.t == j), body))
-                E.prove(f"C13.Switch.{nm}.out_of_range.clamped[{j}of{n}]", E.Implies(z3.And(z3.Not(inr), clamp == j), body))
+                E.prove(f"C13.Switch.{nm}.out_of_range.clamped[{j}of{n}]", E.Implies(z3.And(z3.Not(inr), clamp == j), body),
+                        also=[pid])
         E.prove(f"C01.Switch.generate.in_range.wf[n{n}]", E.Implies(inr, wf(E, sw, tr)))
         E.refutable(f"switch.assess_generate_project.n{n}", E.eq(w, SReal(T.gen_w(gs[0].t, k.t, c.t, bargs[0].t))))
 
